@@ -415,6 +415,9 @@ int reb_simulation_remove_particle(struct reb_simulation* const r, int index, in
         if(r->free_particle_ap){
             r->free_particle_ap(&r->particles[index]);
         }
+        if(r->N_active>0){
+            r->N_active--;
+        }
 		reb_simulation_warning(r, "Last particle removed.");
 		return 1;
 	}
@@ -446,6 +449,9 @@ int reb_simulation_remove_particle(struct reb_simulation* const r, int index, in
                 r->free_particle_ap(&r->particles[index]);
             }
 		    r->particles[index] = r->particles[r->N];
+            if(r->N_active>(int)r->N){
+                r->N_active = r->N; // all remaining particles are active
+            }
         }
 	}
 
